@@ -611,6 +611,22 @@ impl<'a, T: QueryToRelationTranslator + Copy + Clone> VisitedQueryRelations<'a, 
             .map(|e| self.translator.try_expr(e, columns))
             .map_or(Ok(None), |r| r.map(Some))?;
 
+        // The WHERE is carried by the innermost Map of the split. When the innermost stage is a Reduce over plain
+        // columns (GROUP BY without any computed argument) there is no such Map: filter the input instead.
+        fn ends_with_bare_reduce(reduce: &crate::expr::split::Reduce) -> bool {
+            match &reduce.map {
+                None => true,
+                Some(map) => map.reduce.as_deref().map_or(false, ends_with_bare_reduce),
+            }
+        }
+        let bare = match &split {
+            Split::Map(map) => map.reduce.as_deref().map_or(false, ends_with_bare_reduce),
+            Split::Reduce(reduce) => ends_with_bare_reduce(reduce),
+        };
+        let (from, filter) = match filter {
+            Some(predicate) if bare => (Arc::new(from.as_ref().clone().filter(predicate)), None),
+            filter => (from, filter),
+        };
         // Build a Relation
         let mut relation: Relation = match split {
             Split::Map(map) => {
